@@ -9,7 +9,7 @@ from vf.gen import trees
 
 ID = "C20"
 LEVEL = "exploration"
-TECHNIQUE = "Hypothesis-generated option subsets and values supplied through three routes (CLI flags in permuted order with the content path in any position, configuration file with the manual's key names, library keywords); the three strict-decoded metafiles must be equal minus the creation date and every option must sit in its documented field"
+TECHNIQUE = "Hypothesis-generated option subsets and values supplied through three routes (CLI flags in permuted order with the content path in any position, configuration file with the manual's key names, library keywords); the three strict-decoded metafiles must be equal minus the creation date and every option must sit in its documented field ; warm-up invocation of every route with other options, content path spellings, out inside the payload, decoy torrentfile.ini in the cwd; thorough tier adds a coverage-guided (atheris/libFuzzer) stage"
 RULE = ("Cases: tree x subset and values of {announce (1-3 urls), web-seed, http-seed, private, source, comment, piece-length, meta-version, "
         "align} plus out, supplied (1) as CLI flags in a drawn order with the content path first / between / last, including directly after a "
         "list-valued flag, long and short spellings; (2) in an ini file under [config] with the long option names of the manual (announce or "
